@@ -183,6 +183,21 @@ func build(s *schemabuilder.Schema, serves func(f string) bool) {
 	s.Mutation()
 }
 
+// BuildInto registers on s what service svc serves under partition p; false if it serves nothing.
+func BuildInto(s *schemabuilder.Schema, p Partition, svc string) bool {
+	any := false
+	for _, f := range Fields {
+		if has(p[f], svc) {
+			any = true
+		}
+	}
+	if !any {
+		return false
+	}
+	build(s, func(f string) bool { return has(p[f], svc) })
+	return true
+}
+
 // Monolith returns the single server implementing everything.
 func Monolith() *graphql.Schema {
 	s := schemabuilder.NewSchemaWithName("mono")
